@@ -774,26 +774,22 @@ def _u_cover(U):
 
 def _presence_edge_ok(node, lab):
     """Edge filter that assumes presence / type tests of optional members succeed:
-    `X is not None`, `isinstance(...)`, `K in group`."""
+    `X is not None`, `isinstance(...)`, `K in group` (an edge whose facts say the member
+    is absent is infeasible under that assumption)."""
+    from .cfg import edge_facts
     if node.kind != 'test' or lab not in (True, False):
         return True
-    e = node.expr
-    neg = False
-    while isinstance(e, ast.UnaryOp) and isinstance(e.op, ast.Not):
-        neg = not neg
-        e = e.operand
-    pres = None
-    if isinstance(e, ast.Compare) and len(e.ops) == 1 and \
-            isinstance(e.comparators[0], ast.Constant) and e.comparators[0].value is None:
-        pres = isinstance(e.ops[0], ast.IsNot)
-    elif isinstance(e, ast.Call) and dotted(e.func) == 'isinstance':
-        pres = True
-    elif isinstance(e, ast.Compare) and len(e.ops) == 1 and isinstance(e.ops[0], ast.In):
-        pres = True
-    if pres is None:
-        return True
-    want = pres != neg          # label on which the member is present
-    return lab == want
+    for e, tx, truth in edge_facts(node.expr, lab):
+        if isinstance(e, ast.Compare) and len(e.ops) == 1 and \
+                isinstance(e.comparators[0], ast.Constant) and e.comparators[0].value is None \
+                and isinstance(e.ops[0], ast.Is) and truth is True:
+            return False        # "X is None": the member is absent
+        if isinstance(e, ast.Call) and dotted(e.func) == 'isinstance' and truth is False:
+            return False
+        if isinstance(e, ast.Compare) and len(e.ops) == 1 and isinstance(e.ops[0], ast.In) \
+                and truth is False:
+            return False
+    return True
 
 
 def _updates_on_every_path(ctx, rid, func, entries, label):
@@ -893,6 +889,12 @@ def _is_filepath_test(e):
             and dotted(e.left) == 'self.filepath')
 
 
+def _assume_filepath():
+    """Edge filter: a checkpoint file is configured (`self.filepath is None` is false)."""
+    from .cfg import assume
+    return assume(('self.filepath is None', False))
+
+
 def _is_first_batch_test(e):
     if isinstance(e, ast.Compare) and len(e.ops) == 1 and isinstance(e.ops[0], ast.Eq):
         return {dotted(e.left), dotted(e.comparators[0])} == {'self.n_like', 'self.n_batch'}
@@ -926,8 +928,7 @@ def _wrappers_of(cls, method):
         if not calls:
             continue
 
-        def edge_ok(node, lab):
-            return not (node.kind == 'test' and lab is False and _is_filepath_test(node.expr))
+        edge_ok = _assume_filepath()
         if cfg.must_pass(cfg.entry.id, cfg.exit.id, calls, edge_ok=edge_ok):
             out.add(name)
     return out
@@ -1055,21 +1056,25 @@ def rule_P4_sampler(ctx, rid='P4', rid6='P6'):
                                              include_src=True)
 
     def edge_ok_for(start):
-        def edge_ok(node, lab):
-            if node.kind == 'test' and lab is False and _is_filepath_test(node.expr):
-                return False
-            return True
-        return edge_ok
+        return _assume_filepath()
 
     # The initial bound of a fresh sampler is created before any checkpoint exists.  Its
     # state reaches the file through the full write of the first batch: between the
     # exploration-phase add_samples and the following incremental update there must be a
     # test `n_like == n_batch` whose true branch performs a full write first.
     def first_batch_obligation():
-        tests = [t for t in cfg.nodes if t.kind == 'test' and _is_first_batch_test(t.expr)]
+        from .cfg import edge_facts
+        tests = []
+        for t in cfg.nodes:
+            if t.kind != 'test':
+                continue
+            for lab in (True, False):
+                if any(_is_first_batch_test(e_) and tr_ is True
+                       for e_, tx_, tr_ in edge_facts(t.expr, lab)):
+                    tests.append((t, lab))
         ok = False
-        for t in tests:
-            tsucc = [x for x, lab in t.succ if lab is True]
+        for t, flab in tests:
+            tsucc = [x for x, lab in t.succ if lab is flab]
             for c in _calls_to(run, 'add_samples'):
                 a = cfg.node_of(c).id
                 if t.id not in cfg.reach(a, avoid=incr | full, edge_ok=edge_ok_for(a)):
@@ -1204,16 +1209,7 @@ def _is_optional_init(func, attr):
     if not sites:
         return False
     for n in sites:
-        ok = False
-        for tnode, lab in cfg.strict_guards(cfg.node_of(n).id):
-            te = cfg.nodes[tnode].expr
-            if isinstance(te, ast.Compare) and len(te.ops) == 1 and \
-                    isinstance(te.comparators[0], ast.Constant) and \
-                    te.comparators[0].value is None and dotted(te.left) == 'self.' + attr:
-                if (isinstance(te.ops[0], ast.Is) and lab is True) or \
-                        (isinstance(te.ops[0], ast.IsNot) and lab is False):
-                    ok = True
-        if not ok:
+        if not cfg.has_fact(cfg.node_of(n).id, 'self.%s is None' % attr, True):
             return False
     return True
 
@@ -1244,16 +1240,13 @@ def _rule_shell_index(ctx, rid, func, attrs):
                 # a constant index is fine only under a guard `shell == <that constant>`
                 cv = const_value(idx)
                 nid = cfg.node_of(n).id
-                for tnode, lab in cfg.strict_guards(nid):
-                    te = cfg.nodes[tnode].expr
-                    for sub in ast.walk(te):
-                        if isinstance(sub, ast.Compare) and len(sub.ops) == 1 and \
-                                isinstance(sub.ops[0], ast.Eq) and lab is True and \
-                                isinstance(sub.left, ast.Name) and sub.left.id == shell and \
-                                const_value(sub.comparators[0], object()) == cv and \
-                                _conj_member(te, sub):
-                            ok = True
-                            why = 'constant index %r under the guard `%s == %r`' % (cv, shell, cv)
+                for sub, tx, truth in cfg.facts(nid):
+                    if truth is True and isinstance(sub, ast.Compare) and len(sub.ops) == 1 \
+                            and isinstance(sub.ops[0], ast.Eq) and \
+                            isinstance(sub.left, ast.Name) and sub.left.id == shell and \
+                            const_value(sub.comparators[0], object()) == cv:
+                        ok = True
+                        why = 'constant index %r under the guard `%s == %r`' % (cv, shell, cv)
             ctx.ob(rid, '%s:index(%s)' % (func.qualname, ra[0]), ok, func.where(n),
                    'element write to self.%s[%s]: %s' % (ra[0], unparse(idx), why if ok else
                    'index is neither the shell parameter nor guarded to equal it; the '
@@ -1350,6 +1343,11 @@ def _norm_guard(test, pol, obj):
     while isinstance(t, ast.UnaryOp) and isinstance(t.op, ast.Not):
         pol = not pol
         t = t.operand
+    if isinstance(t, ast.Compare) and len(t.ops) == 1 and isinstance(t.ops[0], ast.Is) and \
+            isinstance(t.comparators[0], ast.Constant) and t.comparators[0].value is None:
+        # canonical form: `X is not None` / `not X is not None`
+        t = ast.Compare(left=t.left, ops=[ast.IsNot()], comparators=t.comparators)
+        pol = not pol
     txt = unparse(t)
     import re
     txt = re.sub(r'\b%s\.' % re.escape(obj), 'OBJ.', txt)
@@ -1380,6 +1378,14 @@ def rule_P7(ctx, cls, w, r, rid='P7'):
                 continue
             # (b) a probe of the key the writer emits under `self.attr is not None`
             probes = guard_probes(Entry('R', 'x', '', None, test, [(test, pol)], r))
+            inner, epol = test, pol
+            while isinstance(inner, ast.UnaryOp) and isinstance(inner.op, ast.Not):
+                inner, epol = inner.operand, (not epol)
+            if isinstance(inner, ast.Compare) and len(inner.ops) == 1 and \
+                    isinstance(inner.ops[0], ast.NotIn):
+                inner = ast.Compare(left=inner.left, ops=[ast.In()],
+                                    comparators=inner.comparators)
+                epol = not epol
             ok = False
             why = 'read() restores %r when `%s` but compute() creates it when %s' % (
                 attr, rtxt, sorted(ctxts))
@@ -1388,14 +1394,14 @@ def rule_P7(ctx, cls, w, r, rid='P7'):
                 for e in ws:
                     if e.kind == 'group' and e.attr == attr and e.guards and \
                             _norm_guard(e.guards[-1][0], e.guards[-1][1], 'self') == \
-                            'OBJ.%s is not None' % attr and pol is True and \
-                            isinstance(test, ast.Compare) and isinstance(test.ops[0], ast.In):
+                            'OBJ.%s is not None' % attr and epol is True and \
+                            isinstance(inner, ast.Compare) and isinstance(inner.ops[0], ast.In):
                         ok = True
                         why = 'restored when key %r is present; the writer emits it exactly ' \
                               'when the attribute is not None' % k
                     if e.kind == 'attr' and e.src is not None and \
-                            unparse(e.src) == 'self.%s is not None' % attr and pol is True and \
-                            not isinstance(test, ast.UnaryOp):
+                            unparse(e.src) == 'self.%s is not None' % attr and epol is True \
+                            and isinstance(inner, ast.Subscript):
                         ok = True
                         why = 'restored when flag %r is true; the writer stores `%s`' % (
                             k, unparse(e.src))
